@@ -146,6 +146,24 @@ def appendLoop (l : List Ent) : Nat → List Path → Path → Path → List Pat
         if p' = [] then current :: resolved
         else appendLoop l fuel resolved current p'
 
+/-- variant of `append` whose memo is keyed by (link, remainder) instead of the link alone (isolates F19: with the memo
+keyed by the link only, a second traversal of a link - by a later request or by the same one - returns before the final
+location is recorded) -/
+def appendLoopK (l : List Ent) : Nat → List (Path × Path) × List Path → Path → Path → List (Path × Path) × List Path
+  | 0, acc, _, _ => acc
+  | fuel+1, (memo, resolved), current0, p =>
+    let (first, rest) := splitFirst p
+    let current := joinB [current0, first]
+    let targets := readSymlink l current true
+    let p' := rest
+    if (p' = [] ∨ targets.isSome) ∧ memo.contains (current, p') then (memo, resolved)
+    else match targets with
+      | some ts =>
+        ts.foldl (fun acc t => appendLoopK l fuel acc [dot] (joinB [[dot], joinB [t, p']])) ((current, p') :: memo, current :: resolved)
+      | none =>
+        if p' = [] then ((current, p') :: memo, current :: resolved)
+        else appendLoopK l fuel (memo, resolved) current p'
+
 def lexLtBytes (a b : Path) : Bool := strLt a b
 
 def insertSortedB (x : Path) : List Path → List Path
@@ -179,6 +197,11 @@ def followLinksSeparately (fixed : Bool) (l : List Ent) (paths : List Path) (fue
   let resolved := paths.flatMap fun p => appendLoop l fuel [] [dot] (normReq Fix.f18 p)
   dedupePaths fixed (sortBytes resolved)
 
+/-- variant: memo keyed by (link, remainder) -/
+def followLinksKeyed (fixed : Bool) (l : List Ent) (paths : List Path) (fuel : Nat) : Option (List Path) :=
+  let r := paths.foldl (fun acc p => appendLoopK l fuel acc [dot] (normReq Fix.f18 p)) ([], [])
+  dedupePaths fixed (sortBytes r.2)
+
 /-- has the (cleaned) request a wildcard in a component that is not the last one? -/
 def middleWildcard (p : Path) : Bool :=
   let cs := (comps (clean (([47] : Path) ++ p))).filter (· ≠ [])
@@ -186,31 +209,34 @@ def middleWildcard (p : Path) : Bool :=
 
 /-! ## reference resolver -/
 
-/-- resolve `p` from the root following symlinks chroot-style; returns (links traversed, final location or none on a cycle).
-`final = some []` means the root. -/
-def resolveLoop (l : List Ent) : Nat → List Path → List Path → List Path → List Path × Option (List Path)
-  | 0, seen, _, _ => (seen, none)
-  | _, seen, cur, [] => (seen, some cur)
-  | fuel+1, seen, cur, c :: rest =>
-    if c = [] ∨ c = [dot] then resolveLoop l fuel seen cur rest
-    else if c = dd then resolveLoop l fuel seen cur.dropLast rest
+/-- resolve `p` from the root following symlinks chroot-style; returns (links traversed, final location or none when the
+resolution does not end). `final = some []` means the root. A link may legitimately be crossed several times with different
+remainders (`c/c` with `c -> /`); the resolution is cyclic exactly when a (link, remainder) state recurs, and unbounded
+growth of the remainder (`l -> l/x`) runs out of fuel: both give `none`. -/
+def resolveLoop (l : List Ent) : Nat → List (Path × List Path) → List Path → List Path → List Path → List Path × Option (List Path)
+  | 0, _, seen, _, _ => (seen, none)
+  | _, _, seen, cur, [] => (seen, some cur)
+  | fuel+1, st, seen, cur, c :: rest =>
+    if c = [] ∨ c = [dot] then resolveLoop l fuel st seen cur rest
+    else if c = dd then resolveLoop l fuel st seen cur.dropLast rest
     else
       let next := cur ++ [c]
       match findE l (joinSep next) with
       | some e =>
         match e.link with
         | some ln =>
-          if seen.contains (joinSep next) then (seen, none)
+          if st.contains (joinSep next, rest) then (seen, none)
           else
             let tcs := comps ln
-            if isAbs ln then resolveLoop l fuel (joinSep next :: seen) [] (tcs ++ rest)
-            else resolveLoop l fuel (joinSep next :: seen) cur (tcs ++ rest)
-        | none => resolveLoop l fuel seen next rest
-      | none => resolveLoop l fuel seen next rest
+            let seen' := if seen.contains (joinSep next) then seen else joinSep next :: seen
+            if isAbs ln then resolveLoop l fuel ((joinSep next, rest) :: st) seen' [] (tcs ++ rest)
+            else resolveLoop l fuel ((joinSep next, rest) :: st) seen' cur (tcs ++ rest)
+        | none => resolveLoop l fuel st seen next rest
+      | none => resolveLoop l fuel st seen next rest
 
 /-- links traversed and the final location (as a path relative to the root; `some []` = the root itself) -/
 def resolve (l : List Ent) (p : Path) : List Path × Option Path :=
-  let r := resolveLoop l (4 * (l.length + 2) * (p.length + 4) + 64) [] [] (comps p)
+  let r := resolveLoop l (4 * (l.length + 2) * (p.length + 4) + 64) [] [] [] (comps p)
   (r.1, r.2.map joinSep)
 
 /-- does result element `r` (possibly a wildcard pattern, matched component by component) name `x` or an ancestor of `x`? -/
@@ -223,14 +249,19 @@ def coversOne (r x : Path) : Bool :=
 
 def covered (result : List Path) (x : Path) : Bool := result.any (coversOne · x)
 
-/-- expansions of a request whose components may contain wildcards (matched against real names, level by level) -/
+/-- expansions of a request whose components may contain wildcards: a wildcard component is matched against the names in
+the directory that the textual prefix DENOTES (links in the prefix are crossed first); the expansion stays a textual path -/
 def expandReq (l : List Ent) : Nat → Path → List Path → List Path
   | 0, cur, _ => [cur]
   | _, cur, [] => [cur]
   | fuel+1, cur, c :: rest =>
     if containsWildcards c then
-      let kids := l.filter fun e => parentOf e.path = cur
-      (kids.filter fun k => fnMatch c (baseB k.path)).flatMap fun k => expandReq l fuel k.path rest
+      match (resolve l cur).2 with
+      | none => []
+      | some dir =>
+        let kids := l.filter fun e => e.path ≠ [] && parentOf e.path = dir
+        (kids.filter fun k => fnMatch c (baseB k.path)).flatMap fun k =>
+          expandReq l fuel (if cur = [] then baseB k.path else cur ++ [47] ++ baseB k.path) rest
     else expandReq l fuel (if cur = [] then c else cur ++ [47] ++ c) rest
 
 structure SpecV where
